@@ -5,7 +5,7 @@ current bctpy source (Extracted.lean).  This file has no imports of its own: che
 into build/<run>/Combined.lean and runs `lean` on it.  A change of the library code changes the generated definitions; the
 theorems below are then re-checked against the new terms and the ones that no longer hold are reported by name.
 
-Every theorem that counts as an obligation is preceded by a line   --@ <property ids> : <bct functions>
+Every theorem that counts as an obligation is preceded by a line   --@ <property ids> : <bct functions>   (sections: C09, C10, C04, C14, C02)
 No `sorry`, no `axiom` (scanned on every run; `#print axioms` must list only propext / Classical.choice / Quot.sound).
 
 Conventions: `cbrt` is the abstract cube root (hypotheses `cbrt x ^ 3 = x`, `cbrt 0 = 0`, `cbrt 1 = 1` are passed where needed),
@@ -596,9 +596,9 @@ macro "mask_cases " ci:term:max i:term:max j:term:max : tactic => `(tactic| (
 theorem modularity_dir_given_partition_is_Q (A : Fin n → Fin n → ℝ) (γ : ℝ) (ci : Fin n → ℝ) :
     modularity_dir_ret1 A γ ci = Qdef A γ ci := by
   rw [Qdef_eq, ← fold_transpose (comask ci) (bker A γ) (comask_symm ci) (mtot A)]
-  simp only [modularity_dir_ret1, mtot_comm A]
+  simp only [modularity_dir_ret1, mtot_comm A, Finset.sum_div]
   refine Finset.sum_congr rfl (fun i _ => Finset.sum_congr rfl (fun j _ => ?_))
-  simp only [comask, bker, kout, kin]
+  simp only [comask, bker, kout, kin, mtot]
   mask_cases ci i j
 
 --@ C02 : modularity_und
@@ -608,7 +608,7 @@ theorem modularity_und_given_partition_is_Q (A : Fin n → Fin n → ℝ) (hs : 
   rw [Qdef_eq, one_div, inv_mul_eq_div, Finset.sum_div]
   simp only [modularity_und_ret1, mtot_comm A, Finset.sum_div]
   refine Finset.sum_congr rfl (fun i _ => Finset.sum_congr rfl (fun j _ => ?_))
-  simp only [comask, bker, kout, kin, hk]
+  simp only [comask, bker, kout, kin, hk, mtot]
   mask_cases ci i j
 
 /-! ### signed modularity (Rubinov & Sporns 2011), five normalisations -/
